@@ -1,8 +1,12 @@
+#![allow(unused_mut, unused_imports, dead_code)]
 mod canon;
 mod gen1;
 mod ops1;
 mod ops2;
+mod faults;
+mod ops3;
 mod gen2;
+mod gen3;
 mod rng;
 
 use std::io::{BufRead, Write};
@@ -33,6 +37,8 @@ pub fn run_op(lhs: &str) -> String {
             "baocmp" => ops2::op_baocmp(args),
             "obpre" => ops2::op_obpre(args),
             "enc2" => ops2::op_enc2(args),
+            "valid" => ops2::op_valid(args),
+            "hist" => ops3::op_hist(args),
             _ => format!("unknown-op {op}"),
         }
     })
@@ -54,6 +60,7 @@ fn main() {
             let mut cases: Vec<String> = Vec::new();
             gen1::gen(prop, tier, seed, &mut cases);
             gen2::gen(prop, tier, seed, &mut cases);
+            gen3::gen(prop, tier, seed, &mut cases);
             for (i, lhs) in cases.into_iter().enumerate() {
                 if i % shards != sidx {
                     continue;
